@@ -74,7 +74,6 @@ func (c *ctxT) callSel(n ast.Node) (string, string, *ast.CallExpr) {
 	return c.src(se.X), se.Sel.Name, ce
 }
 
-func squash(s string) string { return strings.Join(strings.Fields(s), " ") }
 
 // msgTypeOfURLExpr: sdk.MsgTypeURL(&pkg.Type{}) -> "pkg.Type"
 func (c *ctxT) msgTypeOfURLExpr(e ast.Expr) string {
